@@ -663,3 +663,113 @@ func ruleR5(c *Ctx) {
 		c.anchorFail("only %d protoreflect integer accessors found in lib/proto", n)
 	}
 }
+
+// ---------- R6 ----------
+
+func init() {
+	register("R6", "map keys and values are converted with their own descriptors: in lib/proto a protoreflect.MapKey is converted to Starlark with the field's MapKey() descriptor and a map value with MapValue(), and a Starlark key converted with MapKey() is the one used as the protobuf map key (.MapKey()), never the other way round", 6, ruleR6)
+	claim("C20", "R6")
+}
+
+func ruleR6(c *Ctx) {
+	n := 0
+	descKind := func(v ssa.Value) string {
+		call, ok := v.(*ssa.Call)
+		if !ok || !call.Call.IsInvoke() {
+			return ""
+		}
+		switch call.Call.Method.Name() {
+		case "MapKey", "MapValue":
+			if strings.HasSuffix(qualType(call.Call.Value.Type()), "FieldDescriptor") {
+				return call.Call.Method.Name()
+			}
+		}
+		return ""
+	}
+	isMapKeyValue := func(v ssa.Value) bool {
+		// mk.Value() where mk is a protoreflect.MapKey
+		call, ok := v.(*ssa.Call)
+		if !ok {
+			return false
+		}
+		if cal := call.Call.StaticCallee(); cal != nil && cal.Name() == "Value" && cal.Signature.Recv() != nil {
+			return strings.HasSuffix(qualType(cal.Signature.Recv().Type()), "protoreflect.MapKey")
+		}
+		return false
+	}
+	for _, fn := range c.P.Funcs {
+		if fnPkgPath(fn) != modPath+"/lib/proto" {
+			continue
+		}
+		fn := fn
+		eachInstr(fn, func(in ssa.Instruction) {
+			call, ok := in.(*ssa.Call)
+			if !ok {
+				return
+			}
+			cal := call.Call.StaticCallee()
+			if cal == nil || fnPkgPath(cal) != modPath+"/lib/proto" || len(call.Call.Args) < 2 {
+				return
+			}
+			dk := descKind(call.Call.Args[0])
+			if dk == "" {
+				return
+			}
+			pos := c.P.Pos(call.Pos())
+			switch cal.Name() {
+			case "toStarlark", "toStarlark1":
+				n++
+				key := fmt.Sprintf("%s: %s(%s(), ...)", fnName(fn), cal.Name(), dk)
+				fromKey := isMapKeyValue(call.Call.Args[1])
+				switch {
+				case dk == "MapKey" && !fromKey:
+					c.viol(key, pos, "a value that is not a map key is converted with the key descriptor: it is read back with the wrong type (or the conversion panics in the host)")
+				case dk == "MapValue" && fromKey:
+					c.viol(key, pos, "a protoreflect.MapKey is converted with the VALUE descriptor: keys read back with the value's type, and maps whose key and value kinds differ panic in the host")
+				default:
+					c.ok(key, pos, "descriptor matches the role of the converted value")
+				}
+			case "toProto":
+				n++
+				key := fmt.Sprintf("%s: toProto(%s(), ...)", fnName(fn), dk)
+				// how is the (first) result used: as .MapKey() or not
+				usedAsKey, usedOther := false, false
+				var results []ssa.Value
+				if call.Referrers() != nil {
+					for _, r := range *call.Referrers() {
+						if ex, ok := r.(*ssa.Extract); ok && ex.Index == 0 {
+							results = append(results, ex)
+						}
+					}
+				}
+				for _, res := range results {
+					if res.Referrers() == nil {
+						continue
+					}
+					for _, r := range *res.Referrers() {
+						ci, ok := r.(ssa.CallInstruction)
+						if !ok {
+							continue
+						}
+						if cc := ci.Common().StaticCallee(); cc != nil && cc.Name() == "MapKey" && len(ci.Common().Args) > 0 && ci.Common().Args[0] == res {
+							usedAsKey = true
+						} else {
+							usedOther = true
+						}
+					}
+				}
+				switch {
+				case dk == "MapKey" && usedOther && !usedAsKey:
+					c.viol(key, pos, "a Starlark value converted with the key descriptor is stored as a map VALUE")
+				case dk == "MapValue" && usedAsKey:
+					c.viol(key, pos, "a Starlark value converted with the value descriptor is used as the protobuf map KEY")
+				default:
+					c.ok(key, pos, "converted value is used in the role of its descriptor")
+				}
+			}
+		})
+	}
+	if n < 6 {
+		c.anchorFail("only %d map key/value conversions found in lib/proto", n)
+	}
+}
